@@ -67,6 +67,7 @@ class Report:
         self.exhaustive = False
         self.extra = {}
         self.findings = load_findings(prop)
+        self.dedupe_on_why = True
 
     def add_mc(self, res, label):
         self.states += res.distinct
@@ -94,7 +95,7 @@ class Report:
         seen = set()
         nviol = 0
         for m, rec in self.violations:
-            key = (m.get("clause"), m.get("why"))
+            key = (m.get("clause"), m.get("why") if self.dedupe_on_why else None)
             if key in seen:
                 continue
             seen.add(key)
